@@ -25,6 +25,9 @@ func init() {
 			{ID: "C05.R5", Floor: 2, Run: c05r5, Text: "componentRegistry.IsRelation is written only by the register method (from isRelation(tp)) and by its undo"},
 			{ID: "C05.R7", Floor: 3, Run: c05r7, Text: "handle identity: two Entity values are compared as whole values (id and generation); a comparison of the id fields of two entities is a violation (id == constant is the zero test and is fine)"},
 			{ID: "C05.R8", Floor: 2, Run: c05r8, Text: "retention: the dead-target panic is applied only to API-supplied targets; a value that may have been loaded from an existing table's RelationTarget never reaches an Alive test whose failing edge panics"},
+			{ID: "C05.R9", Floor: 3, Run: c05r9, Text: "targets only on relation tables: at every call of a function that stores its Entity parameter into a table's RelationTarget (Init, Activate), the argument is the zero entity, or the node's HasRelation flag is known true at the call, or at every call of the enclosing function (two levels)"},
+			{ID: "C05.R10", Floor: 4, Run: c03r6, Text: "Count over a relation filter sums over all matching nodes (= C03.R6): the running total is never overwritten"},
+			{ID: "C05.R11", Floor: 1, Run: c05r11, Text: "target map ⇄ table target: every insert archetypeMap[K] = T is preceded on every path by a call that sets T's RelationTarget to the same K (Init or Activate of that table); every delete from the map uses the removed table's own RelationTarget as key"},
 		},
 	})
 }
@@ -702,3 +705,185 @@ func (c *efConfig) blockStates(fn *ssa.Function) map[*ssa.BasicBlock]efState {
 }
 
 var _ = fmt.Sprint
+
+// ---------- R9: targets only on relation tables ----------
+
+// targetSetters: methods of archetype that store an Entity parameter into RelationTarget; value: parameter index.
+func targetSetters(p *Prog) map[*ssa.Function]int {
+	out := map[*ssa.Function]int{}
+	for _, fn := range p.Funcs {
+		if typeName(recvType(fn)) != "archetype" {
+			continue
+		}
+		for _, b := range fn.Blocks {
+			for _, ins := range b.Instrs {
+				st, ok := ins.(*ssa.Store)
+				if !ok {
+					continue
+				}
+				fa, ok := st.Addr.(*ssa.FieldAddr)
+				if !ok || fieldName(fa.X.Type(), fa.Field) != "RelationTarget" {
+					continue
+				}
+				v := st.Val
+				if u, ok := v.(*ssa.UnOp); ok && u.Op == token.MUL {
+					if al, ok := u.X.(*ssa.Alloc); ok {
+						if pr := spilledParam(al); pr != nil {
+							v = pr
+						}
+					}
+				}
+				if pr, ok := v.(*ssa.Parameter); ok && typeName(pr.Type()) == "Entity" {
+					out[fn] = paramIndex(pr)
+				}
+			}
+		}
+	}
+	return out
+}
+
+func nodeHasRelationKnown(fn *ssa.Function, at ssa.Instruction) bool {
+	mf := &MustFlow{Fn: fn, EdgeGen: func(b *ssa.BasicBlock, k int) bool {
+		atom, holds, ok := edgeCond(b, k)
+		if !ok || !holds {
+			return false
+		}
+		_, f, _, okf := loadedField(atom)
+		return okf && f == "HasRelation"
+	}}
+	mf.Run()
+	return mf.Before(at)
+}
+
+func c05r9(p *Prog, r *Reporter) {
+	setters := targetSetters(p)
+	if len(setters) == 0 {
+		r.Anchor("ecs.archetype: a method storing its Entity parameter into RelationTarget")
+		return
+	}
+	var known func(fn *ssa.Function, at ssa.Instruction, depth int) (bool, string)
+	known = func(fn *ssa.Function, at ssa.Instruction, depth int) (bool, string) {
+		if nodeHasRelationKnown(fn, at) {
+			return true, "HasRelation known true in " + p.FuncName(fn)
+		}
+		if depth >= 2 {
+			return false, "HasRelation is not established in " + p.FuncName(fn) + " or its callers"
+		}
+		callers := 0
+		for _, g := range p.Funcs {
+			for _, site := range callsIn(g) {
+				if !isCallTo(site, fn) {
+					continue
+				}
+				callers++
+				if ok, why := known(g, site, depth+1); !ok {
+					return false, why
+				}
+			}
+		}
+		if callers == 0 {
+			return false, p.FuncName(fn) + " has no callers that establish HasRelation"
+		}
+		return true, "HasRelation known true at every call of " + p.FuncName(fn)
+	}
+	for _, fn := range p.Funcs {
+		n := 0
+		for _, site := range callsIn(fn) {
+			sc := site.Common().StaticCallee()
+			idx, isSetter := setters[sc]
+			if sc == nil || !isSetter {
+				continue
+			}
+			n++
+			arg := site.Common().Args[idx]
+			name := p.FuncName(fn)
+			construct := fmt.Sprintf("target passed to %s #%d", sc.Name(), n)
+			if isZeroEntity(arg) {
+				r.OK(name, construct, p.Pos(site.Pos()), "the zero entity")
+				continue
+			}
+			ok, why := known(fn, site, 0)
+			if ok {
+				r.OK(name, construct, p.Pos(site.Pos()), why)
+			} else {
+				r.Bad(name, construct, p.Pos(site.Pos()), "a possibly non-zero target ("+apath(arg)+") is stored on a table whose node is not known to have a relation: "+why+". Entities moved there later would report a target they were never given")
+			}
+		}
+	}
+}
+
+func isZeroEntity(v ssa.Value) bool {
+	if c, ok := v.(*ssa.Const); ok {
+		return c.Value == nil // zero value of a struct type
+	}
+	// load of a fresh zero-initialised local that is never stored to
+	if u, ok := v.(*ssa.UnOp); ok && u.Op == token.MUL {
+		if al, ok := u.X.(*ssa.Alloc); ok {
+			for _, ref := range *al.Referrers() {
+				if ref != ssa.Instruction(u) {
+					if _, isLoad := ref.(*ssa.UnOp); !isLoad {
+						return false
+					}
+				}
+			}
+			return true
+		}
+	}
+	return false
+}
+
+// ---------- R11: target map ⇄ table target ----------
+
+func c05r11(p *Prog, r *Reporter) {
+	setters := targetSetters(p)
+	for _, fn := range p.Funcs {
+		name := p.FuncName(fn)
+		n, nd := 0, 0
+		for _, b := range fn.Blocks {
+			for _, ins := range b.Instrs {
+				switch x := ins.(type) {
+				case *ssa.MapUpdate:
+					if !strings.HasSuffix(apath(x.Map), ".archetypeMap") {
+						continue
+					}
+					n++
+					// tables the value may be
+					vals := map[ssa.Value]bool{x.Value: true}
+					if ph, ok := x.Value.(*ssa.Phi); ok {
+						for _, e := range ph.Edges {
+							vals[e] = true
+						}
+					}
+					mf := &MustFlow{Fn: fn, InstrGen: func(i2 ssa.Instruction) bool {
+						site, ok := i2.(ssa.CallInstruction)
+						if !ok {
+							return false
+						}
+						idx, isSetter := setters[site.Common().StaticCallee()]
+						if !isSetter || !vals[site.Common().Args[0]] {
+							return false
+						}
+						a := site.Common().Args[idx]
+						return a == x.Key || structEq(a, x.Key, 0)
+					}}
+					mf.Run()
+					construct := fmt.Sprintf("insert into the target map #%d", n)
+					if mf.Before(x) {
+						r.OK(name, construct, p.Pos(x.Pos()), "the table was initialised or activated with the same target on every path")
+					} else {
+						r.Bad(name, construct, p.Pos(x.Pos()), "the table registered under key "+apath(x.Key)+" was not given that target on every path: lookups by target would find a table whose entities report a different target")
+					}
+				case *ssa.Call:
+					bi, ok := x.Call.Value.(*ssa.Builtin)
+					if !ok || bi.Name() != "delete" || !strings.HasSuffix(apath(x.Call.Args[0]), ".archetypeMap") {
+						continue
+					}
+					nd++
+					construct := fmt.Sprintf("delete from the target map #%d", nd)
+					_, f, _, okf := loadedField(x.Call.Args[1])
+					r.Check(okf && f == "RelationTarget", name, construct, p.Pos(x.Pos()), "the key is the removed table's RelationTarget ("+apath(x.Call.Args[1])+")")
+				}
+			}
+		}
+	}
+}
